@@ -96,6 +96,8 @@ def typed_problem(live, ann: Any, obj: Any, path: str = "$", depth: int = 0) -> 
         return None
     if ann is Any or ann is object or ann is typing.Any:
         return None
+    if ann is getattr(live.types, "LSPObject", None) or ann is getattr(live.types, "LSPAny", None):
+        return None  # uninterpreted JSON is what these positions hold
     origin = typing.get_origin(ann)
     if origin is Union:
         probs = []
@@ -104,6 +106,9 @@ def typed_problem(live, ann: Any, obj: Any, path: str = "$", depth: int = 0) -> 
             if p is None:
                 return None
             probs.append(p)
+        deep = max(probs, key=lambda q: q.count(".") + q.count("["))
+        if deep.split(":")[0] != path:
+            return deep
         return f"{path}: value of type {type(obj).__name__} matches no member of {ann}"
     if ann is NoneType or ann is None:
         return None if obj is None else f"{path}: expected None, got {type(obj).__name__}"
